@@ -221,11 +221,19 @@ func (f *srvFam) Exec(r *hx.Run, op []string) string {
 			if b > 4000 {
 				b = 4000
 			}
-			p0, _, _ := f.counts()
+			// close to the capacity the transactions go in one at a time, each awaited: the capacity test counts a
+			// transaction twice while it is being moved from pending to the pool, which is schedule dependent
+			p0, q0, _ := f.counts()
+			if room := tc.MAX_CAPACITY - p0 - q0; room > 300 {
+				if b > room-200 {
+					b = room - 200
+				}
+			} else {
+				b = 1
+			}
 			for i := 0; i < b; i++ {
 				f.txPid.Tell(&tc.TxReq{Tx: f.newTx(), Sender: tc.NetSender})
 			}
-			_ = p0
 			barrier(f.txPid, &tc.GetTxnCountReq{}, 300*time.Second)
 			f.waitPendingZero()
 			n -= b
